@@ -71,8 +71,13 @@ def main() -> int:
         rc0, out0 = run_demo(copy, demo, how)
         ap_ = subprocess.run(["git", "apply", "--whitespace=nowarn", os.path.abspath(os.path.join(src, "patch.diff"))], cwd=copy, capture_output=True, text=True)
         if ap_.returncode != 0:
-            print(f"{a.seed_id}: patch does not apply: {ap_.stderr.strip()[:300]}")
-            return 2
+            # the repository has moved on (later fix: commits touch neighbouring lines): try again tolerating shifted context
+            with open(os.path.abspath(os.path.join(src, "patch.diff"))) as fh:
+                ap2 = subprocess.run(["patch", "-p1", "-F3", "--no-backup-if-mismatch", "-s"], cwd=copy, stdin=fh, capture_output=True, text=True)
+            if ap2.returncode != 0:
+                print(f"{a.seed_id}: patch does not apply: {ap_.stderr.strip()[:200]} / {ap2.stdout.strip()[:200]}")
+                return 2
+            print(f"{a.seed_id}: applied with fuzz (context lines changed by later fixes)")
         rc1, out1 = run_demo(copy, demo, how)
         env = dict(os.environ, PYTHONPATH=os.path.join(copy, "src"), PYTHONDONTWRITEBYTECODE="1")
         cmd = [PY, "-m", "pytest", "-q", "-p", "no:cacheprovider", "--timeout=600", "tests"]
